@@ -258,10 +258,12 @@ Section Wrappers.
   (* ConvertCPathsDToPaths64(paths, scale): x * scale -> Point64(double,double): rounding, no range test *)
   Definition export_convert (scale : float) (ps : fpaths) : option paths := scale_paths_raw scale scale ps.
 
-  Definition export_inflateD (precision : Z) (ps : fpaths) : res (Z * value) + unit :=
+  (* InflatePathsD / InflatePathD: delta and arc_tolerance are multiplied by scale; Execute is always run *)
+  Definition export_inflateD (precision : Z) (ps : fpaths) (delta arc_tolerance : float) : res (Z * value) + unit :=
     if export_inflateD_pre precision false then inr tt
     else let scale := pow10 precision in
-         inl (Val (0, undef_or (export_convert scale ps) (fun q => VCall (mkCall [q] None [] (inv_of scale))))).
+         inl (Val (0, undef_or (export_convert scale ps)
+                        (fun q => VCall (mkCall [q] None [(delta * scale)%float; (arc_tolerance * scale)%float] (inv_of scale))))).
 
   Definition export_rectD (precision : Z) (r : frect) (ps : fpaths) : res (Z * value) + unit :=
     if export_rectD_pre r false precision then inr tt
